@@ -5,7 +5,7 @@ from collections.abc import Generator
 from functools import singledispatch
 from typing import Any, IO
 from typing_extensions import override
-from itertools import chain
+from itertools import chain, groupby
 from pyjelly.integrations.rdflib.parse import Quad, Triple
 from pyjelly.options import StreamParameters
 
@@ -202,16 +202,14 @@ def graphs_stream_frames(
         namespace_declarations(data, stream)  # type: ignore[arg-type]
 
     if isinstance(data, Dataset):
-        graphs = data.graphs()
+        for graph in data.graphs():
+            yield from stream.graph(graph_id=graph.identifier, graph=graph)
     else:
-        ds = Dataset()
-        for quad in data:
-            ctx = ds.get_context(quad.g)
-            ctx.add((quad.s, quad.p, quad.o))
-        graphs = ds.graphs()
-
-    for graph in graphs:
-        yield from stream.graph(graph_id=graph.identifier, graph=graph)
+        # One graph per run of consecutive quads with the same graph name, in input
+        # order and without reading ahead (same as the generic integration).
+        for graph_id, quads in groupby(data, key=lambda quad: quad[3]):
+            triples = (quad[:3] for quad in quads)
+            yield from stream.graph(graph_id=graph_id, graph=triples)
 
     if frame := stream.flow.frame_from_dataset():
         yield frame
